@@ -34,7 +34,11 @@ def write_nodes(ctx, func, eff):
                 elif kind in ("COMMIT", "SCRIPT"):
                     why = why or "calls %s (%s)" % (g.qual, kind.lower())
                 elif kind == "FS" and e[2] in ("unlink", "move"):
-                    why = why or "calls %s (%s)" % (g.qual, e[3])
+                    # only the database file itself matters here (the force block); an iterator removing
+                    # its own from_string temp file is not a database write
+                    tgt = norm(e[4].args[0]) if e[4].args else ""
+                    if tgt in ("dbfn", "self.dbfn"):
+                        why = why or "calls %s (%s of the database file)" % (g.qual, e[3])
         if why:
             out.append((c, why))
     return out
@@ -44,25 +48,42 @@ def r1(ctx, eff):
     for qual in ("interface.FeatureDB.update", "interface.FeatureDB.delete"):
         f = require_func(ctx, qual)
         cfg = cfg_of(f)
-        copies = [c for c in calls_in(f.node) if ctx.proj.resolve_call(c, f)[1] in ("shutil.copy2", "shutil.copy", "shutil.copyfile")]
+        COPY = ("shutil.copy2", "shutil.copy", "shutil.copyfile")
+        copies = [(c, f) for c in calls_in(f.node) if ctx.proj.resolve_call(c, f)[1] in COPY]
+        via = None
+        if not copies:
+            # the backup may live in a helper method: a call whose callee takes the copy
+            for c in calls_in(f.node):
+                for g_ in ctx.proj.resolve_call(c, f)[0]:
+                    inner = [x for x in calls_in(g_.node) if ctx.proj.resolve_call(x, g_)[1] in COPY]
+                    if inner and g_.cls is f.cls:
+                        copies = [(x, g_) for x in inner]
+                        via = c
         ctx.ob("R1", len(copies) == 1, "%s takes one backup copy" % f.name, func=f, sig="%s: %d backup copies" % (f.name, len(copies)))
         if len(copies) != 1:
             continue
-        cp = copies[0]
+        cp, owner = copies[0]
         ok = len(cp.args) == 2 and norm(cp.args[0]) == "self.dbfn" and norm(cp.args[1]) == "self.dbfn + '.bak'"
-        ctx.ob("R1", ok, "the backup copies the database file to <dbfn>.bak", node=cp, func=f, sig="%s backup %s" % (f.name, norm(cp)))
-        g = sorted(("" if pol else "not ") + norm(t) for t, pol in guards_of(cp, f.node))
+        ctx.ob("R1", ok, "the backup copies the database file to <dbfn>.bak", node=cp, func=owner, sig="%s backup %s" % (f.name, norm(cp)))
+        g = sorted(("" if pol else "not ") + norm(t) for t, pol in guards_of(cp, owner.node))
+        if via is not None:
+            # guards inside the helper are over its parameters: map them back through the call
+            pmap = dict(zip([p for p in owner.params if p != "self"], [norm(a) for a in via.args]))
+            pmap.update({k.arg: norm(k.value) for k in via.keywords if k.arg})
+            g = sorted(pmap.get(x, x) if not x.startswith("not ") else "not " + pmap.get(x[4:], x[4:]) for x in g)
+            g += sorted(("" if pol else "not ") + norm(t) for t, pol in guards_of(via, f.node))
         ok = g == sorted(["make_backup", "isinstance(self.dbfn, str)"])
-        ctx.ob("R1", ok, "the backup depends on make_backup and on the database being a file, on nothing else", node=cp, func=f,
+        ctx.ob("R1", ok, "the backup depends on make_backup and on the database being a file, on nothing else", node=cp, func=owner,
                sig="%s backup guards %s" % (f.name, g))
-        # outermost If that guards the copy must dominate every write
+        # outermost If that guards the copy (or the helper call) must dominate every write
+        site = via if via is not None else cp
         outer = None
-        for p in parents(cp):
+        for p in parents(site):
             if p is f.node:
                 break
             if isinstance(p, ast.If):
                 outer = p
-        anchor = cfg.node_for(outer if outer is not None else cp)
+        anchor = cfg.node_for(outer if outer is not None else site)
         ws = write_nodes(ctx, f, eff)
         ctx.floor("R1", len(ws), 2, "writing statements in %s" % f.name)
         for c, why in ws:
@@ -186,6 +207,9 @@ def r3_r4(ctx, eff):
            sig="update driver order populate -> relations -> finalize" if ok else "update driver order broken or _finalize skipped")
     # early return path: nothing but the backup and the construction of the data source
     early = [n for n in ast.walk(f.node) if isinstance(n, ast.Return) and n is not f.node.body[-1]]
+    empties = [r for r in early if any("_peek" in norm(t) for t, pol in guards_of(r, f.node)) and norm(r.value) == "self"]
+    ctx.ob("R4", bool(empties), "an update whose source yields nothing returns the database unchanged (explicit emptiness test before the importer runs)", func=f,
+           sig="empty update returns self early" if empties else "no early return for an empty update")
     ws = write_nodes(ctx, f, eff)
     for r in early:
         rn = cfg.node_for(r)
